@@ -589,6 +589,13 @@ class C10(Prop):
                     got_c = got if got.startswith("F:") else ("E:NotFound" if got == "E:NotFound" else ("PANIC" if got == "PANIC" else "E:other"))
                     if mm_c != got_c:
                         res.model_disagreements.append(dict(key=f"{name}:{fld}", case=case, detail=f"impl {got} model {mm}"))
+            # correspondence: model of the unchecked walker (block skippers, get_next_token) vs implementation: found span / failure
+            if "getu" in I and "m.getu" in M:
+                gu, mu = I["getu"], M["m.getu"]
+                gu_c = gu if gu.startswith("F:") else ("PANIC" if gu == "PANIC" else "E")
+                mu_c = mu if mu.startswith("F:") else "E"
+                if gu_c != mu_c:
+                    res.model_disagreements.append(dict(key=f"{name}:getu", case=case, detail=f"impl {gu} model {mu}"))
             for fld in self.CHECKED + (self.UNCHECKED if wellformed else []):
                 if fld not in I:
                     continue
